@@ -8,7 +8,8 @@ RULE = ("non-trivial = a QR case with condition number > 1e3, a zero in the firs
         "or an overall scale beyond 2^+-12, or a symmetric eigen-case with some "
         "eigenvalue ratio > 0.5, or with an eigenvector that has a zero component (diagonal / block-diagonal / permuted) or is a coordinate vector turned by a tiny angle (nearly diagonal), "
         "or eigenvalues of both signs, or an overall scale beyond 2^+-12, or a structured spectrum (vanishing / nearly vanishing trace, small integers, all ratios at an end of the range) "
-        "or structured eigenvectors (orthogonal to a natural start vector of the inverse iteration, small-integer planes); distinct by case text")
+        "or structured eigenvectors (orthogonal to a natural start vector of the inverse iteration, small-integer planes), or a zero / nearly zero diagonal (hollow), "
+        "or tuned to need one of the last sweeps the iteration allows (150 .. 200), or a session (calls on one or two Matrix objects with in-place modifications between them); distinct by case text")
 LEVEL_TEXT = ("Theorems (Coq, over the reals, every dimension n >= 1): for a non-zero first column x the model of Householder_Matrix returns H = 1 - 2 u u^T with u well defined "
               "(|x - alpha e1|^2 = 2(|x|^2 - alpha x0) >= 2|x|^2 > 0), alpha^2 = |x|^2, H symmetric, H^T H = 1 and H x = alpha e1; "
               "the construction is scale-free, Householder_Matrix(c M) = Householder_Matrix(M) for every c > 0 (C15_Proofs_Scale.v). "
@@ -29,6 +30,11 @@ LEVEL_TEXT = ("Theorems (Coq, over the reals, every dimension n >= 1): for a non
               "The predicates are scale-free (evaluated on M / 2^e and the outputs / 2^e) and the generators move every operation along a ladder of overall scales 1e-305 .. 1e305, put pivot columns and eigenvector angles "
               "at relative sizes 1e-16 .. 1e-6, drive several calls on one Matrix object, and produce spectra with linear relations (trace zero, or 1e-16 .. 1e-6 of sum |lambda|; small integers; all ratios 0.8 / 0.1) "
               "and eigenvectors orthogonal to the vectors an inverse iteration may start from ((1, 1/2, .., 1/n), (1, .., 1), e_1, ...: in all coordinates, inside a coordinate block, or turned out of the complement by 1e-16 .. 1e-6); "
+              "Matrices with a zero diagonal (hollow: all, some or nearly all diagonal entries vanish, so that every scale taken from the diagonal vanishes) run along the same scale ladder; "
+              "matrices are tuned, with a reference run of the sweeps, to pass the convergence test of Eigenvalues for the first time after sweep 200, 199, .. 150 (the iteration cap, last sweep included); "
+              "sessions drive several calls on one or two Matrix objects while the caller rewrites the object between the calls (rows and columns exchanged, diagonal entries exchanged, -M, 2^k M, M^T, copy to / switch to a second object: "
+              "modifications that keep dimension, trace and norm among them) and check every answer against the value the object has at that call "
+              "(theorem C15_session_call_is_fresh: in the model a call is a function of the current value; C15_relabelling_keeps_trace / _norm / _symmetry / _moves_eigenvectors: relabelling keeps trace, norm and spectrum and permutes the eigenvector components). "
               "over the reals the loop of Find_Eigenvector_Rayleigh never leaves the orthogonal complement of an eigenvector of the symmetric M_inv and stops at once at a start vector that is an eigenvector "
               "(theorems C15_inverse_iteration_keeps_orthogonality, C15_inverse_iteration_stays_at_eigen_start), so for these inputs the clause rests on rounding noise and on the S4 predicates alone. "
               "Where the library leaves the property at the ends of the double range, on matrices whose leading coordinate subspaces miss a dominant eigenvector, or when the start vector is an eigenvector, "
@@ -114,7 +120,7 @@ def _jacobi(m, vectors=False):
     return sorted(a[i][i] for i in range(n))
 
 
-def _sweeps_estimate(ms):
+def _sweeps_estimate(ms, info=None):
     """A priori estimate of the number of sweeps the UNSHIFTED QR iteration needs on the symmetric matrix ms until the mass below the
     diagonal is 1e-12 of the diagonal: it is subspace iteration started from the coordinate subspaces span(e_1..e_p), whose distance to
     the dominant invariant subspace shrinks by |lambda_(p+1) / lambda_p| per sweep from its initial value
@@ -132,7 +138,7 @@ def _sweeps_estimate(ms):
                 a_, b_ = comp[i], comp[j]
                 if a_ != b_: comp = [a_ if x == b_ else x for x in comp]
     if len(set(comp)) > 1:
-        return max(_sweeps_estimate([[ms[i][j] for j in range(n) if comp[j] == c] for i in range(n) if comp[i] == c]) for c in set(comp))
+        return max(_sweeps_estimate([[ms[i][j] for j in range(n) if comp[j] == c] for i in range(n) if comp[i] == c], info) for c in set(comp))
     lam, vec = _jacobi(ms, vectors=True)
     order = sorted(range(n), key=lambda k: -abs(lam[k])); lam = [lam[k] for k in order]; vec = [vec[k] for k in order]
     worst = 0.0
@@ -157,8 +163,55 @@ def _sweeps_estimate(ms):
         # W1 singular to working precision (a dominant eigenvector orthogonal to span(e_1..e_p) up to rounding): the coupling the iteration
         # starts from is rounding noise, anything between 2^-57 and 2^-49 that the input does not determine; the estimate takes the smallest
         if t > 2.0 ** 49: t = max(t, 2.0 ** 57) if t < math.inf else 2.0 ** 57
+        if t > 2.0 ** 40 and info is not None: info["noise"] = True    # a coupling this small is changed by the rounding of the first sweeps
         worst = max(worst, math.log(max(t, 1.0) * 1e12) / math.log(abs(lam[p - 1]) / abs(lam[p])))
     return worst
+
+
+def _qr_sweeps_sim(ms, kmax=200):
+    """Reference run of the unshifted QR iteration A <- R Q (Householder reflectors applied as rank-one updates, never formed): the relative
+    sub-diagonal mass sum_{k>j} |a_kj| / sum_j |a_jj| after sweep 1, 2, .., kmax.  Eigenvalues() tests it against 1e-12 after the sweeps
+    12 .. 200 (loop index i > 10, i < 200).  Written independently of the model; it differs from the library in rounding only."""
+    n = len(ms); a = [list(r) for r in ms]; out = []
+    for _ in range(kmax):
+        us = []
+        for k in range(n - 1):
+            x = [a[i][k] for i in range(k, n)]
+            nx = math.sqrt(sum(t * t for t in x))
+            if nx == 0.0: us.append(None); continue
+            u = list(x); u[0] += math.copysign(nx, x[0])
+            nu = math.sqrt(sum(t * t for t in u))
+            if nu == 0.0: us.append(None); continue
+            u = [t / nu for t in u]; us.append(u)
+            for j in range(k, n):
+                d = 2.0 * sum(u[i] * a[k + i][j] for i in range(n - k))
+                for i in range(n - k): a[k + i][j] -= d * u[i]
+            for i in range(k + 1, n): a[i][k] = 0.0
+        for k, u in enumerate(us):                  # A' = R H_0 H_1 ..
+            if u is None: continue
+            for row in a:
+                d = 2.0 * sum(row[k + j] * u[j] for j in range(n - k))
+                for j in range(n - k): row[k + j] -= d * u[j]
+        sm = sum(abs(a[j][j]) for j in range(n)); off = sum(abs(a[k][j]) for j in range(n) for k in range(j + 1, n))
+        out.append(off / sm if sm > 0 else math.inf)
+    return out
+
+
+def _first_converged(offs, thr=1e-12):
+    """number (1-based) of the first sweep >= 12 after which the convergence test of Eigenvalues() holds with threshold thr; None: never"""
+    return next((k + 1 for k, x in enumerate(offs) if k + 1 >= 12 and x < thr), None)
+
+
+def _slow_reordering(ms):
+    """Region of K-C15-4 for a call that ended with 'did not converge in 200 steps': the a priori estimate of the sweep count is >= 195, and
+    the count is either not determined by the input (coupling between a leading coordinate subspace and the dominant invariant subspace
+    below 2^-40: it is set by rounding noise) or the reference run of the iteration needs more than the 200 sweeps as well.  A matrix whose
+    reference run passes the convergence test with a margin of 10 % at some sweep <= 200 is NOT in the region: there the library had the
+    sweeps it needs (the iteration cap itself is checked, sweep 200 included)."""
+    info = {}
+    if not _sweeps_estimate(ms, info) >= 195.0: return False
+    if info.get("noise"): return True
+    return _first_converged(_qr_sweeps_sim(ms, 200), 0.9e-12) is None
 
 
 def _det_exact(m):
@@ -221,7 +274,8 @@ def _ref_pivots(ms):
 #   norm-overflow / norm-underflow: Vector::Norm and Matrix::Norm are sqrt(sum of squares) without scaling; the squares of a pivot column
 #   leave the double range when its norm is >= 2^511 or lose their bits below 2^-511 sqrt(n) (region taken as >= 2^510, < 2^-505).
 #   iterate-norm-overflow (Eigensystem): the same Norm applied to M_inv b, of length 1 / (1e-8 |M|), i.e. |M| <= 1e8 2^-505.
-#   slow-reordering (exit of Eigenvalues): a priori estimate of the sweeps of the unshifted iteration (_sweeps_estimate) >= 195 of the 200 allowed.
+#   slow-reordering (exit of Eigenvalues): a priori estimate of the sweeps of the unshifted iteration (_sweeps_estimate) >= 195 of the 200 allowed, and the
+#   reference run of the sweeps (_qr_sweeps_sim) does not pass the convergence test by sweep 200 either, or the count is set by rounding noise (_slow_reordering).
 #   det-underflow: Matrix::Inverse refuses a matrix whose Laplace determinant underflows (exact |det| below the underflow allowance).
 #   start-vector-eigenvector (Eigensystem): the fixed start vector (1, 1/2, .., 1/n) of the inverse iteration is an eigenvector of M to rounding.
 _HI, _LO = 510.0, -505.0
@@ -544,6 +598,166 @@ def _gen_structured_sym(rng, n):
     return m, lam, ["structured"] + tags
 
 
+# ---- the iteration cap of Eigenvalues(): matrices tuned to need a prescribed number of sweeps
+def _gen_cap(rng, n, target):
+    """(matrix, spectrum, tag) or None: a symmetric matrix inside the quantifier (ratios 0.1 .. 0.8, either sign) on which the unshifted QR
+    iteration passes its convergence test for the first time after sweep `target` (12 <= target <= 200; the reference run _qr_sweeps_sim
+    is at 0.80 .. 0.90 of the threshold there and above 1.02 of it before, so that rounding differences do not move the count).
+    The count is steered by the angle theta between a leading coordinate subspace and the dominant invariant subspace (count ~
+    ln(1e12 / theta) / ln(1 / r) for the slow ratio r): nearly diagonal matrices with one neighbouring pair out of order, or dense matrices
+    whose dominant eigenvector is orthogonal to e_1 up to theta."""
+    r = rng.uniform(max(0.5, 10 ** (-23.0 / target)), 0.8)          # theta = 1e12 r^target stays above 1e-11
+    p = rng.randrange(n - 1)
+    ratios = [rng.uniform(0.1, 0.55) for _ in range(n - 1)]; ratios[p] = r
+    lam = [x * rng.choice([1.0, -1.0]) * 1.0 for x in _mags(ratios)]
+    sc = 10 ** rng.uniform(-1, 1); lam = [x * sc for x in lam]
+    dense = n >= 3 and rng.random() < 0.5
+    if dense:
+        p = 0; ratios = [rng.uniform(0.1, 0.55) for _ in range(n - 1)]; ratios[0] = r
+        lam = [x * rng.choice([1.0, -1.0]) * sc for x in _mags(ratios)]
+        q0 = _orth_perp(rng, [1.0] + [0.0] * (n - 1), 1)           # row 0 (lambda_1) is orthogonal to e_1
+        i, j = 0, 1
+    else:
+        q0 = [[1.0 if a == b else 0.0 for b in range(n)] for a in range(n)]
+        lam[p], lam[p + 1] = lam[p + 1], lam[p]                      # diagonal out of order at the slow pair
+        i, j = p, p + 1
+
+    def build(theta):
+        q = [list(row) for row in q0]; _rotate_rows(q, i, j, theta)
+        return _sym_from(q, lam)
+
+    def off_at(theta):
+        m = build(theta); ms, _ = _normalise(m); offs = _qr_sweeps_sim(ms, target)
+        return m, offs
+    goal = 0.85e-12
+    th = min(max(1e12 * r ** target, 3e-12), 1e-3) * rng.choice([1.0, -1.0]); slope = -1.0; prev = None
+    for _ in range(6):
+        m, offs = off_at(th); o = offs[target - 1]
+        if not 0.0 < o < math.inf: return None
+        if 0.80e-12 < o < 0.90e-12 and all(x >= 1.02e-12 for x in offs[11:target - 1]):
+            return m, lam, ("cap-dense" if dense else "cap-near-diagonal")
+        if prev is not None and prev[0] != abs(th) and o != prev[1]:
+            sl = math.log(o / prev[1]) / math.log(abs(th) / prev[0])
+            if -3.0 < sl < -0.3: slope = sl
+        prev = (abs(th), o)
+        nth = abs(th) * (goal / o) ** (1.0 / slope)
+        if not 1e-12 <= nth <= 1e-2: return None
+        th = math.copysign(nth, th)
+    return None
+
+
+# ---- hollow matrices: symmetric, every diagonal entry exactly zero (or a tiny fraction of the other entries)
+def _hollowed(m, keep=0):
+    """orthogonally similar matrix with zero diagonal for a symmetric matrix of vanishing trace: n - 1 plane rotations, the rotation of the
+    plane (i, j) with a_ii a_jj < 0 by the angle with a_jj t^2 + 2 a_ij t + a_ii = 0 (t = tan) annihilates a_ii and leaves a_jj' = a_ii + a_jj;
+    keep: number of diagonal entries that are left alone (partially hollow)"""
+    n = len(m); a = [list(r) for r in m]; todo = list(range(n))
+    while len(todo) > 1 + keep:
+        pos = [k for k in todo if a[k][k] > 0]; neg = [k for k in todo if a[k][k] < 0]
+        if not pos or not neg: break
+        i, j = pos[0], neg[0]
+        aii, ajj, aij = a[i][i], a[j][j], a[i][j]
+        disc = math.sqrt(aij * aij - aii * ajj)
+        t = (-aij + disc) / ajj if abs(-aij + disc) <= abs(-aij - disc) else (-aij - disc) / ajj          # the smaller rotation
+        c = 1.0 / math.sqrt(1.0 + t * t); sn = t * c
+        for k in range(n):
+            aki, akj = a[k][i], a[k][j]; a[k][i] = c * aki + sn * akj; a[k][j] = -sn * aki + c * akj
+        for k in range(n):
+            aik, ajk = a[i][k], a[j][k]; a[i][k] = c * aik + sn * ajk; a[j][k] = -sn * aik + c * ajk
+        a[i][i] = 0.0; todo.remove(i)
+    for x in range(n):
+        for y in range(x): a[x][y] = a[y][x]
+    return a, todo
+
+
+def _gen_hollow(rng, n):
+    """(matrix, spectrum, tags) or None, n >= 3: Q diag(lambda) Q^T with a traceless spectrum (ratios 0.1 .. 0.8, both signs), rotated to
+    the basis in which its diagonal vanishes: all diagonal entries exactly zero, all but some, or of a relative size from the ladder 1e-16 .. 1e-6"""
+    lam = _traceless(rng, n, rng.choice(["slow", "one-slow", "any", "any", "dyadic"]))
+    if lam is None: return None
+    sc = 10 ** rng.uniform(-2, 2) if rng.random() < 0.7 else float(rng.choice([1, 2, 3, 5, 12]))
+    lam = [x * sc for x in lam]
+    m = _sym_from(_rand_orth(rng, n), lam)
+    k = rng.random()
+    keep = 0 if k < 0.75 else rng.randint(1, n - 2)
+    a, rest = _hollowed(m, keep)
+    if len(rest) != 1 + keep: return None
+    tag = "hollow" if keep == 0 else "partially-hollow"
+    if keep == 0:
+        a[rest[0]][rest[0]] = 0.0
+        if rng.random() < 0.3:                     # nearly hollow: diagonal at a relative size from the ladder
+            big = max(abs(x) for row in a for x in row)
+            for d in range(n):
+                if rng.random() < 0.7: a[d][d] = big * _rel(rng) * rng.choice([1.0, -1.0])
+            tag = "nearly-hollow"
+    if rng.random() < 0.3:                         # small-integer entries: hand-written hollow matrices (adjacency-like); accepted if the spectrum is inside the quantifier
+        b = [[0.0] * n for _ in range(n)]
+        for x in range(n):
+            for y in range(x): b[x][y] = b[y][x] = float(rng.randint(-3, 4))
+        ev = sorted(_jacobi(b), key=abs, reverse=True)
+        if ev[-1] != 0.0 and all(0.1 <= abs(y / x) <= 0.8 for x, y in zip(ev, ev[1:])): a = b; lam = ev; tag = "hollow-integer"
+    return a, lam, ["structured", tag]
+
+
+# ---- sessions: several calls on one or two Matrix objects with in-place modifications between them
+_CALLS = ("sys", "vecs", "vals", "qr")
+
+
+def _apply_step(cur, oth, st):
+    """the effect of one modification step on (current object, other object); exact in floating point"""
+    n = len(cur); w = st[0]
+    if w in ("swap", "dswap"):
+        i, j = st[1], st[2]; tr = lambda k: j if k == i else i if k == j else k
+        if w == "swap": cur = [[cur[tr(r)][tr(c)] for c in range(n)] for r in range(n)]
+        else: cur = [[cur[tr(r)][tr(c)] if r == c else cur[r][c] for c in range(n)] for r in range(n)]
+    elif w == "neg": cur = [[-x for x in row] for row in cur]
+    elif w == "scale": cur = [[_ldexp(x, st[1]) for x in row] for row in cur]
+    elif w == "transp": cur = _tr(cur)
+    elif w == "copy": oth = [list(r) for r in cur]
+    elif w == "other": cur, oth = oth, cur
+    return cur, oth
+
+
+def _in_quantifier(m):
+    ms, _ = _normalise(m); ev = sorted(_jacobi(ms), key=abs, reverse=True)
+    return ev[-1] != 0.0 and all(0.1 <= abs(y / x) <= 0.8 for x, y in zip(ev, ev[1:]))
+
+
+def _gen_session(rng, m):
+    """steps of a session on the symmetric matrix m: calls (Eigensystem, Eigenvectors, Eigenvalues, QR_Decomposition) interleaved with
+    in-place modifications of the object that keep it inside the quantifier: relabelling of the basis (symmetric exchange of two rows and
+    columns), exchange of two diagonal entries, M <- -M, M <- 2^k M, M <- M^T, and a second object (copy; switch).  Relabelling,
+    negation of a traceless matrix and transposition keep dimension, trace and norm of the object; every answer has to be the answer
+    for the object's current value."""
+    n = len(m); steps = []; cur = [list(r) for r in m]; oth = [list(r) for r in m]; e_tot = 0
+    steps.append((rng.choice(["sys", "sys", "vecs", "vals"]),))
+    for _ in range(rng.randint(1, 3)):
+        for _m in range(rng.choice([1, 1, 1, 2])):
+            k = rng.random(); st = None
+            if n >= 2 and k < 0.40:
+                i, j = rng.sample(range(n), 2); st = ("swap", i, j)
+            elif n >= 2 and k < 0.55:
+                i, j = rng.sample(range(n), 2); st = ("dswap", i, j)
+                c2, _ = _apply_step(cur, oth, st)
+                if c2 == cur or not _in_quantifier(c2): st = ("swap", i, j)
+            elif k < 0.70: st = ("neg",)
+            elif k < 0.78:
+                d = rng.choice([1, -1, 2, -3, 10, -10, 33, -40])
+                if abs(e_tot + d) <= 60: e_tot += d; st = ("scale", d)
+            elif k < 0.84: st = ("transp",)
+            elif k < 0.92: st = ("copy",)
+            else: st = ("other",)
+            if st is None: continue
+            cur, oth = _apply_step(cur, oth, st); steps.append(st)
+        steps.append((rng.choice(["sys", "sys", "sys", "vecs", "vals", "qr"]),))
+        if rng.random() < 0.3: steps.append((rng.choice(["sys", "vecs"]),))
+    return steps
+
+
+def _session_line(m, steps):
+    return _mline("session", m) + f" {len(steps)} " + " ".join(" ".join(str(x) for x in st) for st in steps)
+
+
 def generate(rng, tier):
     cs = []
     big = tier != "quick"
@@ -625,6 +839,46 @@ def generate(rng, tier):
         if k % 2 == 0 or any(t.startswith("spectrum-") for t in tags): cs.append(Case(_mline("eigenvalues", m), ["eigenvalues"] + tags, tol=(1e-9, ta), info={"lam": lam}))
         if rng.random() < 0.15: cs.append(Case(_mline("eigenvectors", m), ["eigenvectors"] + tags, tol=(1e-7, ta), info={"lam": lam}))
         if rng.random() < 0.06: cs.append(Case(_mline("history", m), ["history"] + tags, tol=(1e-7, ta), info={"lam": lam}))
+    # ---- the iteration cap: matrices that pass the convergence test of Eigenvalues() for the first time after sweep 200, 199, .. (the last
+    #      sweeps the loop allows) and, in the thorough tier, anywhere between sweep 150 and 200
+    caps = [200] * 8 + [199, 199, 198, 197, 196, 193, 185, 170] if not big else [200] * 60 + [199] * 20 + [198] * 10 + [197] * 10 + list(range(150, 197))
+    for tgt in caps:
+        n = rng.choice([2, 3, 3, 4]) if not big else rng.choice([2, 3, 3, 4, 4, 5, 6])
+        g = _gen_cap(rng, n, tgt)
+        if g is None: continue
+        m, lam, tag = g; tags = [tag, f"n={n}", "cap-200" if tgt == 200 else "cap-197..199" if tgt >= 197 else "cap-150..196"]
+        cs.append(Case(_mline("eigenvalues", m), ["eigenvalues"] + tags, tol=(1e-9, 1e-300), info={"lam": lam}))
+        if rng.random() < 0.5: cs.append(Case(_mline("eigensystem", m), ["eigensystem"] + tags, tol=(1e-7, 1e-300), info={"lam": lam}))
+    # ---- hollow matrices (zero diagonal: every natural scale taken from the diagonal vanishes), all / some / nearly; most of them moved along the scale ladder
+    for k in range(1200 if big else 70):
+        n = rng.choice([3, 3, 3, 4, 4, 5, 6, 7])
+        g = _gen_hollow(rng, n)
+        if g is None: continue
+        m, lam, tags = g; tags = tags + [f"n={n}"]
+        if rng.random() < 0.65:
+            e, st = _pick_scale(rng, tame=True); m, e = _scale_finite(m, e); lam = [_ldexp(x, e) for x in lam]; tags.append(st)
+        ta = 0.0 if tags[-1].startswith("scale") else 1e-300
+        cs.append(Case(_mline("eigensystem", m), ["eigensystem"] + tags, tol=(1e-7, ta), info={"lam": lam}))
+        if k % 3 == 0: cs.append(Case(_mline("eigenvalues", m), ["eigenvalues"] + tags, tol=(1e-9, ta), info={"lam": lam}))
+        if k % 7 == 0: cs.append(Case(_mline("eigenvectors", m), ["eigenvectors"] + tags, tol=(1e-7, ta), info={"lam": lam}))
+    # ---- sessions: calls on one object with in-place modifications between them (relabelled basis, exchanged diagonal entries, -M, 2^k M, M^T, a second object)
+    for k in range(1000 if big else 70):
+        kind = rng.random(); n = rng.choice([2, 2, 3, 3, 3, 4, 5] if not big else [2, 2, 3, 3, 4, 5, 6, 7])
+        if kind < 0.45: m, lam, tag = _gen_sym(rng, n); tags = [tag]
+        elif kind < 0.85 or n < 3: m, lam, tags = _gen_structured_sym(rng, n)
+        else:
+            g = _gen_hollow(rng, n)
+            if g is None: continue
+            m, lam, tags = g
+        tags = list(tags) + [f"n={n}"]
+        if k % 6 == 0:
+            e, st = _pick_scale(rng, tame=True); m, e = _scale_finite(m, e); lam = [_ldexp(x, e) for x in lam]; tags.append(st)
+        ta = 0.0 if tags[-1].startswith("scale") else 1e-300
+        steps = _gen_session(rng, m)
+        cs.append(Case(_session_line(m, steps), ["session"] + tags + sorted({"step-" + st[0] for st in steps if st[0] not in _CALLS}), tol=(1e-7, ta), info={"lam": lam}))
+    for m, steps in (([[3.0, 1.0], [1.0, -1.0]], [("sys",), ("dswap", 0, 1), ("sys",), ("vecs",)]),
+                     ([[4.0, 1.0, 0.0], [1.0, 3.0, 0.0], [0.0, 0.0, 1.0]], [("vecs",), ("swap", 0, 2), ("vecs",), ("copy",), ("other",), ("sys",), ("neg",), ("vals",), ("qr",)])):
+        cs.append(Case(_session_line(m, steps), ["session", "special"], tol=(1e-7, 1e-300)))
     for m in ([[2.0, 0.0, 0.0], [0.0, 3.0, 0.0], [0.0, 0.0, 5.0]], [[4.0]], [[2.0, 1.0], [1.0, 2.0]],
               [[2.0, -1.0, 0.0], [-1.0, 2.0, -1.0], [0.0, -1.0, 2.0]], [[4.0, 1.0, 0.0], [1.0, 3.0, 0.0], [0.0, 0.0, 1.0]]):
         cs.append(Case(_mline("eigenvalues", m), ["eigenvalues", "special"], tol=(1e-9, 1e-300)))
@@ -683,12 +937,13 @@ def nontrivial(c, io):
     ms, e = _normalise(m)
     if op == "qr":
         return c.info.get("kappa", 1.0) > 1e3 or any(m[i][0] == 0.0 for i in range(n)) or "guard" in " ".join(c.tags) or abs(e) > 12 or _near_reduced(m)
+    if op == "session": return True
     if op in ("eigenvalues", "eigensystem", "eigenvectors", "history"):
         lam = c.info.get("lam")
         if not lam: return True
         srt = sorted((abs(x) for x in lam), reverse=True)
         ratio = max((b / a for a, b in zip(srt, srt[1:])), default=0.0)
-        return ratio > 0.5 or any(t.startswith(("diagonal", "block", "near-diagonal", "structured")) for t in c.tags) or (min(lam) < 0 < max(lam)) or abs(e) > 12
+        return ratio > 0.5 or any(t.startswith(("diagonal", "block", "near-diagonal", "structured", "cap-")) for t in c.tags) or (min(lam) < 0 < max(lam)) or abs(e) > 12
     return False
 
 
@@ -768,10 +1023,43 @@ def _pred_eigenpairs(m, ev, vs, ref, e, reg, what):
     return out
 
 
+def _eigen_ctx(m):
+    """reference spectrum and input regions of a symmetric eigen-request"""
+    ms, e = _normalise(m); ref = _jacobi(ms); nms = _fro(ms)
+    reg = _norm_region(min(abs(x) for x in ref), nms, e)
+    # Eigensystem only: the inverse-iteration vector M_inv b has length up to 1 / (1e-8 |M|) before it is normalised
+    reg_sys = reg or (":iterate-norm-overflow" if _log2(nms) + e <= math.log2(1e8) - 505.0 else "")
+    # Eigensystem only: the start vector of the inverse iteration is itself an eigenvector (the loop then never leaves it)
+    reg_sys = reg_sys or (":start-vector-eigenvector" if _start_vector_is_eigenvector(ms, nms) else "")
+    return {"ms": ms, "e": e, "ref": ref, "nms": nms, "reg": reg, "reg_sys": reg_sys, "cls": ":exact-eigenvalue-shift" if _has_1x1_block(m) else ""}
+
+
+def _exit_finding(cx, what, values_only):
+    """signature and message for a symmetric eigen-request that ended the process"""
+    reg = cx["reg"]
+    # the 200 sweeps of the unshifted iteration are known not to suffice where the a priori estimate of the sweep count exceeds them and the reference run agrees
+    if not reg and _slow_reordering(cx["ms"]): reg = ":slow-reordering"
+    if values_only: return ("eigenvalues:exit" + reg, f"{what}: Eigenvalues terminated the process on a symmetric matrix with separated eigenvalues")
+    if not reg and _shifted_det_underflows(cx["ref"], cx["nms"], cx["e"]): reg = ":det-underflow"
+    # ':exact-eigenvalue-shift' marks the input class of the repaired defect (M has a row whose off-diagonal entries are all zero)
+    return ("eigensystem:exit" + cx["cls"] + reg, f"{what} terminated the process on a symmetric matrix with separated eigenvalues")
+
+
+def _parse_steps(rest):
+    """[count, tokens ..] -> list of step tuples"""
+    steps = []; k = 1
+    while k < len(rest):
+        w = rest[k]
+        if w in ("swap", "dswap"): steps.append((w, rest[k + 1], rest[k + 2])); k += 3
+        elif w == "scale": steps.append((w, rest[k + 1])); k += 2
+        else: steps.append((w,)); k += 1
+    return steps
+
+
 def predicates(c, io):
     """S4: the property's own clauses evaluated on the implementation's output."""
     out = []
-    op, m, _ = _case_matrix(c); n = len(m)
+    op, m, rest = _case_matrix(c); n = len(m)
     if io.startswith(("CRASH", "SANITIZER", "HARNESSERR")): return out
     o = parse_vals(io)
     exited = io.startswith("EXIT"); timeout = io.startswith("TIMEOUT")
@@ -799,22 +1087,10 @@ def predicates(c, io):
         if not (abs(abs(hx_[0]) - nx) <= sl * nx and all(abs(t) <= sl * nx for t in hx_[1:])): out.append(("householder:reflects" + reg, f"H x / 2^{e} = {hx_!r} is not +-|x| e1 (|x| / 2^{e} = {nx!r})"))
         if x[0] != 0 and not hx_[0] * x[0] < 0: out.append(("householder:sign" + reg, "alpha does not have the sign opposite to x0"))
     elif op in ("eigenvalues", "eigensystem", "eigenvectors", "history"):
-        cls = ":exact-eigenvalue-shift" if _has_1x1_block(m) else ""
         pre = "eigenvalues" if op == "eigenvalues" else "eigensystem"       # Eigenvectors(M) is Eigensystem(M).second
-        ms, e = _normalise(m); ref = _jacobi(ms); nms = _fro(ms)
-        reg = _norm_region(min(abs(x) for x in ref), nms, e)
-        # Eigensystem only: the inverse-iteration vector M_inv b has length up to 1 / (1e-8 |M|) before it is normalised
-        reg_sys = reg or (":iterate-norm-overflow" if _log2(nms) + e <= math.log2(1e8) - 505.0 else "")
-        # Eigensystem only: the start vector of the inverse iteration is itself an eigenvector (the loop then never leaves it)
-        reg_sys = reg_sys or (":start-vector-eigenvector" if _start_vector_is_eigenvector(ms, nms) else "")
+        cx = _eigen_ctx(m); reg, reg_sys, ref, e = cx["reg"], cx["reg_sys"], cx["ref"], cx["e"]
         if timeout: return [(f"{pre}:timeout" + reg, f"{op} did not terminate within the time bound")]
-        if exited:
-            # the 200 sweeps of the unshifted iteration are known not to suffice where the a priori estimate of the sweep count exceeds them
-            if not reg and _sweeps_estimate(ms) >= 195.0: reg = ":slow-reordering"
-            if op == "eigenvalues": return [("eigenvalues:exit" + reg, "Eigenvalues terminated the process on a symmetric matrix with separated eigenvalues")]
-            if not reg and _shifted_det_underflows(ref, nms, e): reg = ":det-underflow"
-            # ':exact-eigenvalue-shift' marks the input class of the repaired defect (M has a row whose off-diagonal entries are all zero)
-            return [("eigensystem:exit" + cls + reg, f"{op} terminated the process on a symmetric matrix with separated eigenvalues")]
+        if exited: return [_exit_finding(cx, op, op == "eigenvalues")]
         if op == "eigenvalues":
             ev, _ = _read_list(o, 0)
             out += _pred_eigenvalues(m, ev, ref, e, reg)
@@ -836,6 +1112,36 @@ def predicates(c, io):
             out += _pred_eigenpairs(m, ev4, vs4, ref, e, reg_sys, "Eigensystem (fifth call on the object)")
             if not (vs2 == vs1 and vs4 == vs1 and ev4 == ev1): out.append(("history:repeatable", "the same request on the same Matrix object was answered differently the second time"))
             if same != 1: out.append(("history:argument-unchanged", "the Matrix passed by reference differs from its copy after the calls"))
+    elif op == "session":
+        # calls on one or two Matrix objects with in-place modifications between them: every answer must satisfy its clauses for the value the
+        # object has AT THAT CALL (computed here by replaying the modifications, which are exact), and the calls must not change the object
+        steps = _parse_steps(rest)
+        cur = [list(r) for r in m]; oth = [list(r) for r in m]; k = 0; nc = 0; hist = "a fresh object"
+        if timeout: return [("eigensystem:timeout" + _eigen_ctx(m)["reg"], "a call of the session did not terminate within the time bound")]
+        if exited:
+            # the runner does not say which call ended the process: the first call whose argument lies in a region where an exit is known decides the signature
+            fs = []
+            for st in steps:
+                if st[0] in ("sys", "vecs", "vals"): fs.append(_exit_finding(_eigen_ctx(cur), "session call '" + st[0] + "' after " + hist, st[0] == "vals"))
+                elif st[0] != "qr": cur, oth = _apply_step(cur, oth, st); hist = "the in-place modifications " + " ".join(" ".join(str(x) for x in t) for t in steps[:steps.index(st) + 1] if t[0] not in _CALLS)
+            known_ = [f for f in fs if f[0].count(":") > 1]
+            return [known_[0] if known_ else fs[0] if fs else ("qr:exit", "QR_Decomposition of a session ended the process")]
+        for idx, st in enumerate(steps):
+            if st[0] not in _CALLS:
+                cur, oth = _apply_step(cur, oth, st); hist = "the in-place modifications " + " ".join(" ".join(str(x) for x in t) for t in steps[:idx + 1] if t[0] not in _CALLS)
+                continue
+            nc += 1; what = f"call {nc} of the session ({ {'sys': 'Eigensystem', 'vecs': 'Eigenvectors', 'vals': 'Eigenvalues', 'qr': 'QR_Decomposition'}[st[0]] } after {hist})"
+            if st[0] == "qr":
+                q, k = _read_mat(o, k); r, k = _read_mat(o, k); out += [(sg, what + ": " + ms_) for sg, ms_ in _pred_qr(cur, q, r)]
+                continue
+            cx = _eigen_ctx(cur)
+            if st[0] == "vals":
+                ev, k = _read_list(o, k); out += [(sg, what + ": " + ms_) for sg, ms_ in _pred_eigenvalues(cur, ev, cx["ref"], cx["e"], cx["reg"])]
+            elif st[0] == "sys":
+                ev, k = _read_list(o, k); vs, k = _read_vecs(o, k); out += _pred_eigenpairs(cur, ev, vs, cx["ref"], cx["e"], cx["reg_sys"], what)
+            else:
+                vs, k = _read_vecs(o, k); out += _pred_eigenpairs(cur, None, vs, cx["ref"], cx["e"], cx["reg_sys"], what)
+        if o[k] != 1: out.append(("history:argument-unchanged", "a Matrix passed by reference differs from the value its caller gave it after the calls of the session"))
     elif op in ("det", "inverse") and timeout:
         out.append((f"{op}:timeout", f"{op} did not terminate within the time bound"))
     elif op == "det":
